@@ -50,6 +50,10 @@ AttrCases == {[kind |-> "attr", code |-> 0, name |-> a[1], dir |-> 0, enc |-> x,
              \* item types the library does not know (0x0B is Date-Time Extended of KMIP 2.x, 0x0C, 0x00): an opaque position either rejects the
              \* message or hands the item on exactly as it came
              \cup {[kind |-> "attr", code |-> t, name |-> n, dir |-> 0, enc |-> "ttlv", expect |-> "opaque-or-error"] : n \in {"x-custom"}, t \in {0, 11, 12}}
+             \* a standard attribute whose value arrives as an item of another type than its specified one (a text attribute carrying an
+             \* Integer, an Enumeration, a Byte String) is not that attribute's value: the message is refused, nothing generic is made of it
+             \cup {[kind |-> "attr", code |-> t, name |-> a[1], dir |-> 2, enc |-> x, expect |-> "error"] :
+                     a \in {b \in PinAttrs : b[2] = "string"}, t \in {2, 5, 8}, x \in Encodings}
              \* names that differ from a standard one only by letter case are NOT standard attributes
              \cup {[kind |-> "attr", code |-> t, name |-> a[1], dir |-> 1, enc |-> x, expect |-> "opaque"] : a \in PinAttrs, t \in {2, 7}, x \in {"ttlv"}}
 \* where the type of a carried object comes from: the payload's Object Type field (Get / Export responses, Register request) or, when the
